@@ -19,12 +19,25 @@ use std::{fmt, hash::Hash};
 //
 // requirements:
 // - values must be immutable
-#[derive(Default, Clone)]
+#[derive(Default)]
 pub struct IdSet<T: Hash + Eq> {
     map: HashMap<Ptr<T>, u32>,
     current_buf: Vec<T>, // TODO: instead of using Vec<T> for a buffer, maybe use a [MaybeUninit<T>], or even a raw buffer of bytes...
     old_bufs: Vec<Vec<T>>,
     id_to_ptr: Vec<*mut T>,
+}
+
+// The map keys and `id_to_ptr` point into this set's own buffers, so a clone must be rebuilt
+// around its own copies of the elements (a field-wise clone would keep pointing into the original).
+impl<T: Hash + Eq + Clone> Clone for IdSet<T> {
+    fn clone(&self) -> Self {
+        let mut new = Self::new();
+        for value in self.iter() {
+            // elements are unique and iterated in id order, so every id is preserved
+            new.insert(value.clone());
+        }
+        new
+    }
 }
 
 /// wrapper around *const T w
